@@ -176,6 +176,17 @@ class MapT(Ty):
         return MapT(self.key, self.val)
 
 
+class BagT(Ty):
+    """Multiset as Array(elem, Int); only manipulated by contracts (abstract broker queue)."""
+
+    def __init__(self, elem: Ty):
+        self.elem = elem
+        self.name = f"Bag[{elem.name}]"
+
+    def sort(self):
+        return z3.ArraySort(self.elem.sort(), z3.IntSort())
+
+
 class SeqT(Ty):
     def __init__(self, elem: Ty):
         self.elem = elem
